@@ -23,6 +23,7 @@ META = {
 }
 
 MAX_MINOR = 39
+SIB = '88888888-8888-4888-8888-888888888888'   # second child of R
 SETTINGS = ['1.%d' % i for i in range(MAX_MINOR + 1)] + ['latest', None]
 BAD_VERSIONS = ['0.9', '1.40', '2.0', '1.100', '0.0']
 GARBAGE = ['x.y', '1', 'one.zero', '1.2.3']
@@ -193,7 +194,7 @@ def features(d=None):
     add('1.14 in_tree on GET resource_providers', 14,
         lambda v, s: Req('GET', '/resource_providers?in_tree=%s' % C, s),
         jhas(lambda j: {x['uuid'] for x in j['resource_providers']}
-             == {R, C}), st_in(400))
+             == {R, C, SIB}), st_in(400))
     # 1.19 aggregates generation
     add('1.19 aggregates PUT dict body with generation', 19,
         lambda v, s: Req('PUT', '/resource_providers/%s/aggregates' % E, s,
@@ -276,6 +277,12 @@ def features(d=None):
         lambda v, s: Req('PUT', '/resource_providers/%s' % C, s,
                          {'name': 'child', 'parent_provider_uuid': E}),
         both(st_in(200), jhas(lambda j: j['root_provider_uuid'] == E)),
+        st_in(400), 14)
+    add('1.37 re-parenting within the same tree accepted', 37,
+        lambda v, s: Req('PUT', '/resource_providers/%s' % C, s,
+                         {'name': 'child', 'parent_provider_uuid': SIB}),
+        both(st_in(200), jhas(lambda j: j['root_provider_uuid'] == R and
+                              j['parent_provider_uuid'] == SIB)),
         st_in(400), 14)
     add('1.37 un-parenting accepted', 37,
         lambda v, s: Req('PUT', '/resource_providers/%s' % C, s,
@@ -486,6 +493,10 @@ def run_shard(spec, res):
     try:
         svc.fresh()
         world.build(svc.client)
+        rr = svc.client.call('POST', '/resource_providers',
+                             {'name': 'sibling', 'uuid': SIB,
+                              'parent_provider_uuid': R})
+        assert rr.status == 200, rr.status
         state = spec.get('state', 0)
         if state == 1:
             # a second prepared state: more consumers / providers
